@@ -24,6 +24,17 @@ pub struct Link {
     pub requests: bool,
     /// same-file link only: the definition is written below the tests and fixtures that use it
     pub below: bool,
+    /// requesting links only: the signature is wrapped, the `fx` parameter sits on its own line
+    #[serde(default)]
+    pub wrapped: bool,
+}
+
+fn fxdef(requests: bool, wrapped: bool) -> Item {
+    let mut f = Item::fixture("fx", if requests { &["fx"] } else { &[] });
+    if let Item::Fixture { wrapped: w, .. } = &mut f {
+        *w = wrapped && requests;
+    }
+    f
 }
 
 #[derive(Clone, Debug, Serialize)]
@@ -44,20 +55,19 @@ impl Chain {
             let own = if k == d - 1 { self.links.iter().find(|l| l.pos == 0) } else { None };
             if let Some(l) = own {
                 if !l.below {
-                    items.push(Item::fixture("fx", if l.requests { &["fx"] } else { &[] }));
+                    items.push(fxdef(l.requests, l.wrapped));
                 }
             }
             items.push(Item::test("t", &["fx"]));
             items.push(Item::fixture(&format!("g{}", k), &["fx"]));
             if let Some(l) = own {
                 if l.below {
-                    items.push(Item::fixture("fx", if l.requests { &["fx"] } else { &[] }));
+                    items.push(fxdef(l.requests, l.wrapped));
                 }
             }
             files.push(FileSpec::new(&format!("{}test_m{}.py", DIRS[k], k), items));
         }
         for l in &self.links {
-            let deps: &[&str] = if l.requests { &["fx"] } else { &[] };
             if l.pos >= 1 && l.pos <= d {
                 // conftest at level (d - l.pos): pos 1 = nearest
                 let lvl = d - l.pos;
@@ -71,13 +81,13 @@ impl Chain {
                     ));
                     files.push(FileSpec::new(
                         &format!("{}hh{}.py", dir, lvl),
-                        vec![Item::fixture("fx", deps)],
+                        vec![fxdef(l.requests, l.wrapped)],
                     ));
                 } else {
                     // a dependent fixture written above the (possibly self-requesting) definition
                     files.push(FileSpec::new(
                         &format!("{}conftest.py", dir),
-                        vec![Item::fixture(&format!("c{}", lvl), &["fx"]), Item::fixture("fx", deps)],
+                        vec![Item::fixture(&format!("c{}", lvl), &["fx"]), fxdef(l.requests, l.wrapped)],
                     ));
                 }
             } else if l.pos == d + 1 {
@@ -104,16 +114,16 @@ impl Chain {
             }
             let positions: Vec<usize> = (0..npos).filter(|p| mask & (1 << p) != 0).collect();
             // per link options
-            // (imported, requests, below)
-            let opts: Vec<Vec<(bool, bool, bool)>> = positions
+            // (imported, requests, below, wrapped)
+            let opts: Vec<Vec<(bool, bool, bool, bool)>> = positions
                 .iter()
                 .map(|&p| {
                     if p == 0 {
-                        vec![(false, false, false), (false, true, false), (false, false, true), (false, true, true)]
+                        vec![(false, false, false, false), (false, true, false, false), (false, false, true, false), (false, true, true, false), (false, true, false, true), (false, true, true, true)]
                     } else if p <= depth {
-                        vec![(false, false, false), (false, true, false), (true, false, false), (true, true, false)]
+                        vec![(false, false, false, false), (false, true, false, false), (true, false, false, false), (true, true, false, false), (false, true, false, true), (true, true, false, true)]
                     } else {
-                        vec![(false, false, false)]
+                        vec![(false, false, false, false)]
                     }
                 })
                 .collect();
@@ -129,6 +139,7 @@ impl Chain {
                             imported: opts[i][idx[i]].0,
                             requests: opts[i][idx[i]].1,
                             below: opts[i][idx[i]].2,
+                            wrapped: opts[i][idx[i]].3,
                         })
                         .collect(),
                 });
@@ -215,7 +226,6 @@ pub fn run(rep: &Report) {
                 }
                 judged_lines.fetch_add(1, Ordering::Relaxed);
                 let path = ws.path(this.file);
-                let text_line = r.texts[this.file].lines().nth(ds.line - 1).unwrap();
                 let pu = r
                     .usages
                     .iter()
@@ -228,14 +238,21 @@ pub fn run(rep: &Report) {
                     .unwrap();
                 let outer = ws.lookup(this.file, "fx", Some(this));
                 let this_loc = def_loc(&r, &ws, this);
-                for col in 0..=text_line.len() {
-                    let on_name = col >= ds.start && col < ds.end;
-                    let on_param = col >= pu.start && col < pu.end;
-                    let q = |kind: &str| json!({"kind": kind, "file": ws.files[this.file].rel, "line": ds.line, "col": col});
+                // every column of the `def` line and — wrapped signature — of the parameter's line
+                let mut sweep: Vec<(usize, usize)> = Vec::new();
+                for ln in if pu.line == ds.line { vec![ds.line] } else { vec![ds.line, pu.line] } {
+                    let text_line = r.texts[this.file].lines().nth(ln - 1).unwrap();
+                    sweep.extend((0..=text_line.len()).map(|c| (ln, c)));
+                }
+                for (qline, col) in sweep {
+                    let on_name = qline == ds.line && col >= ds.start && col < ds.end;
+                    let on_param = qline == pu.line && col >= pu.start && col < pu.end;
+                    let wrapped_tag = if pu.line != ds.line { " [wrapped signature]" } else { "" };
+                    let q = |kind: &str| json!({"kind": kind, "file": ws.files[this.file].rel, "line": qline, "col": col});
                     cnt.queries.fetch_add(3, Ordering::Relaxed);
                     // --- go-to-definition
                     let got = db
-                        .find_fixture_definition(&path, (ds.line - 1) as u32, col as u32)
+                        .find_fixture_definition(&path, (qline - 1) as u32, col as u32)
                         .map(|d| (rel(&d.file_path, ROOT), d.line));
                     let want = if on_param {
                         outer.map(|o| def_loc(&r, &ws, o))
@@ -252,9 +269,10 @@ pub fn run(rep: &Report) {
                         };
                         rep.violation(
                             &format!(
-                                "def-line goto: cursor-on={} got={}",
+                                "def-line goto: cursor-on={} got={}{}",
                                 if on_param { "parameter" } else if on_name { "name" } else { "elsewhere" },
-                                cls
+                                cls,
+                                wrapped_tag
                             ),
                             &format!(
                                 "go-to-definition on `def fx(fx)` line of {} col {}: expected {:?}, got {:?}",
@@ -264,7 +282,7 @@ pub fn run(rep: &Report) {
                         );
                     }
                     // --- references
-                    let refs = lsp.references(&path, (ds.line - 1) as u32, col as u32);
+                    let refs = lsp.references(&path, (qline - 1) as u32, col as u32);
                     let refs: Option<Vec<Loc>> = match refs {
                         Ok(o) => o.map(|v| {
                             let mut x: Vec<Loc> = v
@@ -299,8 +317,9 @@ pub fn run(rep: &Report) {
                         if refs != w {
                             rep.violation(
                                 &format!(
-                                    "def-line references: cursor-on={}",
-                                    if on_param { "parameter" } else if on_name { "name" } else { "elsewhere" }
+                                    "def-line references: cursor-on={}{}",
+                                    if on_param { "parameter" } else if on_name { "name" } else { "elsewhere" },
+                                    wrapped_tag
                                 ),
                                 &format!(
                                     "references on `def fx(fx)` line of {} col {}: expected {:?}, got {:?}",
@@ -311,7 +330,7 @@ pub fn run(rep: &Report) {
                         }
                     }
                     // --- prepareCallHierarchy
-                    let prep = match lsp.prepare_call_hierarchy(&path, (ds.line - 1) as u32, col as u32) {
+                    let prep = match lsp.prepare_call_hierarchy(&path, (qline - 1) as u32, col as u32) {
                         Ok(o) => o.map(|v| {
                             v.iter()
                                 .map(|i| {
@@ -337,8 +356,9 @@ pub fn run(rep: &Report) {
                     if prep != want_prep {
                         rep.violation(
                             &format!(
-                                "def-line prepareCallHierarchy: cursor-on={}",
-                                if on_param { "parameter" } else if on_name { "name" } else { "elsewhere" }
+                                "def-line prepareCallHierarchy: cursor-on={}{}",
+                                if on_param { "parameter" } else if on_name { "name" } else { "elsewhere" },
+                                wrapped_tag
                             ),
                             &format!(
                                 "prepareCallHierarchy on `def fx(fx)` line of {} col {}: expected {:?}, got {:?}",
